@@ -60,23 +60,24 @@ def run(R):
     for n in range(0, 4):
         nodes = list(range(n))
         subsets = [list(c) for r in range(n + 1) for c in itertools.combinations(nodes, r)]
-        subsets += [s + [99] for s in subsets[:2]]
+        # foreign nodes (not in G): one, several, and more requested nodes than G has
+        subsets += [s + [99] for s in subsets] + [s + [98, 99] for s in subsets] + [s + [96, 97, 98, 99] for s in subsets[:4]]
         for E in all_digraphs(n):
             for X in subsets:
                 cases.append((nodes, E, X))
     step = 2 if R.thorough else 11
     for mask in range(0, 1 << 16, step):
         E = digraph_by_mask(4, mask)
-        for X in ([[0], [1, 3], [0, 1, 2, 3], [2, 7]] if not R.thorough else
-                  [list(c) for r in range(5) for c in itertools.combinations(range(4), r)] + [[2, 7]]):
+        for X in ([[0], [1, 3], [0, 1, 2, 3], [2, 7], [0, 1, 7, 8, 9]] if not R.thorough else
+                  [list(c) for r in range(5) for c in itertools.combinations(range(4), r)] + [[2, 7], [0, 1, 7, 8, 9], [3, 6, 7, 8]]):
             cases.append((list(range(4)), E, X))
     for _ in range(15000 if R.thorough else 2000):
         n = rng.randint(1, 12)
         V = list(range(n))
         rng.shuffle(V)
         X = rng.sample(V, rng.randint(0, n))
-        if rng.random() < 0.1:
-            X.append(n + 5)
+        if rng.random() < 0.25:
+            X += [n + 5 + j for j in range(rng.randint(1, n + 1))]     # foreign nodes, possibly |X| >= |V|
         cases.append((V, rand_digraph(rng, n), X))
     cmds, meta = [], []
     for (V, E, X) in cases:
